@@ -6,7 +6,7 @@ PATCH="$(realpath "$1")"; shift
 SUITE=0; if [ "$1" = "--suite" ]; then SUITE=1; shift; fi
 WT=$(mktemp -d /tmp/mut-XXXXXX); rmdir "$WT"
 git -C /repo worktree add -q --detach "$WT" HEAD || exit 2
-trap 'git -C /repo worktree remove --force "$WT" >/dev/null 2>&1; rm -rf "$WT"' EXIT
+trap 'git -C /repo worktree remove --force "$WT" >/dev/null 2>&1; rm -rf "$WT"; rm -f /verif/.build/*alt-$(basename "$WT")*' EXIT
 if ! git -C "$WT" apply "$PATCH"; then echo "PATCH DOES NOT APPLY"; exit 2; fi
 ( cd "$WT" && go build ./... ) || { echo "MUTANT DOES NOT BUILD"; exit 2; }
 if [ "$SUITE" = 1 ]; then
